@@ -244,6 +244,7 @@ class SpatialTransform(DeviceProperty, Module, metaclass=ABCMeta):
                 print(f"{type(self).__name__}.fit(): step={step}, mse={error.tolist()}")
             if converged:
                 break
+        self.clear_buffers()  # buffered vector fields were computed before the last optimizer step
 
     def forward(self, points: Tensor, grid: bool = False) -> Tensor:
         r"""Transform normalized points by this spatial transformation.
